@@ -37,7 +37,7 @@ chk.extra['rule'] = ('a fine-grained Molecule and a particle Molecule are built 
                      'recomputed from Mapping.mapping; non-trivial = unequal declared weights, an atom re-weighted by a '
                      'modification mapping, or shared atoms), systems (one run_system over molecules with and without '
                      'center_weight; non-trivial = unequal weights and at least one with/without switch), boundary stream')
-chk.lean(['VermouthProps.C09', 'VermouthProps.C09_Pipeline', 'VermouthProps.C09_Boundary'], 'driver_c09')
+chk.lean(['VermouthProps.C09', 'VermouthProps.C09_Pipeline', 'VermouthProps.C09_Boundary', 'VermouthProps.C09_Alias'], 'driver_c09')
 
 import numpy as np
 import networkx as nx
@@ -763,6 +763,9 @@ try:
         map_cases.append(('mapdef-blocks-%d' % i, c09_map.run_case(C01D, mrng, 'blocks')))
     for i in range(int(os.environ.get('C09_NMOD', 2000 if chk.thorough else 170))):
         map_cases.append(('mapdef-mods-%d' % i, c09_map.run_case(C01D, mrng, 'mods')))
+    xrng = chk.rng('mapdef-xmods')
+    for i in range(int(os.environ.get('C09_NXMOD', 2000 if chk.thorough else 150))):
+        map_cases.append(('mapdef-xmods-%d' % i, c09_map.run_case(C01D, xrng, 'xmods')))
 except Exception as e:
     import traceback
     chk.notes.append('mapping-definition stream failed: %s' % traceback.format_exc()[-800:])
@@ -780,6 +783,14 @@ for (cid, c), mo in zip(map_cases, mmodels):
             errs.append('unexpected behaviour of DoAverageBead: ' + c['status2'])
     elif c['status'].startswith('exception'):
         errs.append('unexpected behaviour of do_mapping: ' + c['status'])
+    if c.get('aliased'):
+        errs.append('particles %r share ONE mapping_weights object: the atoms / weights a mapping assigns to one of '
+                    'them show up in the other' % (c['aliased'][:3],))
+    if c['kind'] == 'xmods':
+        if c['meta'].get('dum') and c['meta'].get('ndum', 0) >= 2:
+            chk.count('mapdef_xmods_modification_on_one_of_several_spawned_particles')
+        if c['meta'].get('xl'):
+            chk.count('mapdef_xmods_crosslink')
     chk.count('mapdef_kind=' + c['kind'])
     chk.count('mapdef_outcome=' + c['impl'].split()[0] + ('' if c['status'] == 'ok' else ' ' + c['status']))
     chk.count('mapdef_config weight=%r ffvar=%r' % (c['weight'], c['ffvar']))
